@@ -328,6 +328,10 @@ class Model:
         self.ccap = S.ccap(s)
         self.ucap = S.ucap(s)
         self.pending_acts = []   # side actions requested by script steps, in order: (act, a1, a2, a3)
+        # hex-buffer / string variables whose content is not defined any more: a WRITE was rejected after part of their argument
+        # had been decoded.  C05 only fixes what a SUCCESSFUL write leaves (and that nothing at or beyond data_size is touched);
+        # whether a rejected one leaves the old value, a decoded prefix or a mixture is the implementation's business.
+        self.unknown = set()
 
     # ----- state helpers
     def dis(self):
@@ -392,6 +396,8 @@ class Model:
                 t += b","
             if self.vcb(cbs, i, k, "r", 0):
                 return None
+            if (i, k) in self.unknown and v["access"] != WO:
+                raise Unknown("READ of a buffer variable whose last WRITE was rejected part-way")
             f = fmt_var(v, self.data[(i, k)])
             if f is None or len(t) + len(f) >= cap:
                 return None
@@ -534,9 +540,11 @@ class Model:
             if r[0] == "bad":
                 part = r[1]
                 if part is not None and not ro:
-                    # hex buffers and strings are decoded in place: a rejected argument may leave a prefix
+                    # hex buffers and strings may be decoded in place: a rejected argument may leave a prefix
                     n = min(len(part), sz)
                     d[:n] = part[:n]
+                    if n:
+                        self.unknown.add((i, k))
                 return False, k
             _, val, pos, comma = r
             if v["type"] in (INT, UINT, HEX):
@@ -555,17 +563,22 @@ class Model:
                 if len(val) > sz:
                     if not ro:
                         d[:sz] = val[:sz]
+                        self.unknown.add((i, k))
                     return False, k
                 if not ro:
                     d[:len(val)] = val
+                    if len(val) == sz:
+                        self.unknown.discard((i, k))
                 ws = 0 if ro else len(val)
             else:
                 if len(val) >= sz:
                     if not ro:
                         d[:sz] = val[:sz]
+                        self.unknown.add((i, k))
                     return False, k
                 if not ro:
                     d[:len(val) + 1] = val + b"\0"
+                    self.unknown.discard((i, k))
                 ws = 0 if ro else len(val)
             if self.vcb(p.cbs, i, k, "w", ws):
                 return False, k + 1
